@@ -133,7 +133,7 @@ CHECKS['C04'] = (
     'E1-bfs', 'model_checking',
     'explicit-state enumeration of ALL statement histories (no state merging) on the real interpreter with warm caches '
     'vs. a fresh interpreter loaded with a copy of the pre-state (differential) + frame condition',
-    'Every sequence of up to 3 (quick) / 4 (thorough, reduced alphabet at depth 4) statements over an alphabet of 40 '
+    'Every sequence of up to 3 (quick) / 4 (thorough, reduced alphabet at depth 4) statements over an alphabet of 42 '
     'colliding texts (assignments, amend / amend-in-depth, sub-list producing verbs, function definitions and calls, '
     'repeated texts, module switches, dictionary literals, compiled expressions, a gradient of a literal). For every '
     'statement: interpreter A (caches warm) vs. fresh interpreter B loaded with a deep copy of A\'s pre-state; same '
